@@ -24,7 +24,7 @@ def plans(ctx):
     return [R.Plan("rep1", "S_q1", script="ScriptReply1", rich_sel="RichReply", emit_mod=1, max_pw=2, opts=CLS),
             R.Plan("rep2", "S_t1a", script="ScriptReply2", rich_sel="RichReply", emit_mod=8, max_pw=2, opts=CLS),
             R.Plan("rep3", "S_t1b", script="ScriptReply1", rich_sel="RichReply", emit_mod=1, max_pw=2, opts=CLS),
-            R.Plan("rep4", "S_t1c", script="ScriptReply2", rich_sel="RichReply", emit_mod=4, max_pw=2, opts=CLS),
+            R.Plan("rep4", "S_t1c", script="ScriptReply1", rich_sel="RichReply", emit_mod=4, max_pw=2, opts=CLS),
             R.Plan("rep5", "S_t1d", script="ScriptReply1", rich_sel="RichReply", emit_mod=1, max_pw=2),
             R.Plan("q1", "S_q1", emit_mod=4, max_inst=1, max_pw=2, opts=CLS),
             R.Plan("t1a", "S_t1a", emit_mod=8, max_inst=1, max_pw=1, opts=CLS),
